@@ -840,7 +840,10 @@ namespace adept {
 	// additional check is performed at the end of each completed
 	// strip, the total number needs to be anticipated beforehand
 	// (omitting this can cause memory corruption).
-	ADEPT_ACTIVE_STACK->check_space((E::n_active + Func::extra_element_cost) * n + new_dims.size());
+	// Functions with finish_needed (mean, norm2) use one further
+	// operation per strip in finish_active before the copy.
+	ADEPT_ACTIVE_STACK->check_space((E::n_active + Func::extra_element_cost) * n
+					+ (Func::finish_needed ? 2 : 1) * new_dims.size());
 	do {
 	  i[reduce_dim] = 0;
 	  //	  total.set_value(f.first_value());
